@@ -409,7 +409,7 @@ func (e *Engine) intrinsic(s *State, f *Frame, call *ssa.Call, fn *ssa.Function,
 		return true
 	case "time.Now":
 		e.Stubs["time.Now: arbitrary instant (symbolic seconds)"] = true
-		sec := Fresh("now", BV(64))
+		sec := s.Fresh("now", BV(64))
 		// keep seconds in a sane range so that arithmetic on instants does not wrap
 		e.assume(s, And(BVCmp("bvsge", sec, I64(0)), BVCmp("bvslt", sec, BVInt(1<<40, 64))))
 		loc := e.globalPtr(s, "time", "localLoc")
